@@ -64,7 +64,9 @@ fn named_before(prefix: &[Op]) -> Vec<String> {
     prefix
         .iter()
         .filter_map(|o| match o {
-            Op::Sys(s) if !s.name.is_empty() => Some(s.name.clone()),
+            // (a system whose running_time() panics never was registered: whether its name is taken afterwards is not
+            // specified, so nothing later depends on it or re-uses it)
+            Op::Sys(s) if !s.name.is_empty() && s.time != 9 => Some(s.name.clone()),
             Op::Batch(b) if !b.name.is_empty() => Some(b.name.clone()),
             Op::Static(st) if !st.name.is_empty() => Some(st.name.clone()),
             _ => None,
@@ -448,6 +450,10 @@ impl Profile {
                     s(String::new(), &[], &[], 3, vec!["".into()]),
                     s(name.clone(), &[], &[], 3, vec!["with space".into()]),
                 ];
+                // user code panics inside the call (running_time()): nothing of that system may stay behind
+                bad.push(s(name.clone(), &[], &[0], 9, vec![]));
+                bad.push(s(String::new(), &[0], &[], 9, vec![]));
+                bad.push(s(name.clone(), &[], &[], 9, vec![]));
                 if let Some(n0) = names.first() {
                     bad.push(s(n0.clone(), &[], &[0], 3, vec![]));
                     bad.push(s(name.clone(), &[], &[], 3, vec![n0.clone(), "nope".into()]));
